@@ -256,6 +256,7 @@ def run(ctx):
             c20_opts.opts_leg(ctx, b, "TestVerifN2HOpts", "n2h_opts", corr_broken, env={"VF_E8_N2H_BIN": n2h_tool or ""})
         if b:
             giveup(ctx, b, corr_broken)
+        c20_audit7.n2h_get(ctx, corr_broken)   # audit7-b: GET request target (own harness binary)
     if (ctx.broken_ties or corr_broken) and not ctx.violations:
         ctx.broken_without_input(ctx.broken_ties + corr_broken,
                                  "search: %d generated inputs / messages through the real tools found no property failure"
